@@ -131,10 +131,13 @@ def build(
             # Keep the inputs that are used in the order in which they were given
             # (the arguments found by traversal are collected in a set).
             used = set(graph.get_arguments().values())
-            listed = set(inputs.values())
+            if not used <= set(inputs.values()):
+                # (compared as Vars: the generated name of a missing argument may equal a listed name)
+                raise KeyError(
+                    "Model requires additional inputs not provided in 'inputs'."
+                )
             graph = results(**outputs).with_arguments(
-                *(var for var in inputs.values() if var in used),
-                *(var for var in graph.get_arguments().values() if var not in listed),
+                *(var for var in inputs.values() if var in used)
             )
         model_proto = graph.to_onnx_model()
 
